@@ -431,7 +431,16 @@ func (c *Cmd) applyRelations(inst command_interface.CommandInterface, dev []int)
 	}
 	// default pads: align the following buffer when it is non-empty
 	for _, f := range c.Fields {
-		if f.Rel == nil || f.Rel.Kind != RPad || (dev != nil && dev[f.Pos] > 0) {
+		if f.Rel == nil || f.Rel.Kind != RPad {
+			continue
+		}
+		if dev != nil && dev[f.Pos] > 0 {
+			// explicit padding is only locatable on the wire when the buffer behind it is non-empty
+			// (then the buffer's offset field pins where the padding ends)
+			of, ov := fv(f.Rel.Of)
+			if elemCount(of, ov) == 0 {
+				return fmt.Errorf("padding %s in front of an empty buffer cannot be told from the buffer", f.Name)
+			}
 			continue
 		}
 		v := sv.Field(f.Index)
